@@ -4,7 +4,7 @@
    the code after the repair `fix: withdraw_liquidity pays the exact pro-rata share` (before it the share ratio was
    truncated to 18 digits and the literal lower bound was false; recorded as fixed in known_findings.json). *)
 From MD.Model Require Import Base Ownable Epoch PoolMath Types PoolManager FarmManager Chain.
-From MD.Proofs Require Import PoolMathProofs SwapProofs PmProofs LiquidityProofs BankProofs TxBalances.
+From MD.Proofs Require Import PoolMathProofs SwapProofs PmProofs LiquidityProofs BankProofs TxBalances PoolCustodyChain LockedLiquidity NonVacuity.
 
 (* constant-product deposit: LP minted = min(floor(a*S/x), floor(b*S/y)) is never more than the depositor's
    proportional contribution in either asset ... *)
@@ -75,6 +75,41 @@ Theorem C02_withdrawal_transaction_moves_exactly_these_balances : forall w sende
         - ind (String.eqb a PM) (ind (String.eqb (p_lp p) d) amount).
 Proof. exact withdraw_tx_balances. Qed.
 
+(* THE LOCKED MINIMUM, over all histories. (1) The pool manager's surplus (bank balance minus the reserves of all pools)
+   never decreases, per denom, through any history of operations by any users (calls between the contracts, single-asset
+   provisions, locked deposits, farm operations, rejected operations and injected faults included). *)
+Theorem C02_surplus_never_decreases : forall ops w d,
+  Forall op_okP ops -> pool_custody w -> slackP w d <= slackP (run w ops) d.
+Proof. exact run_slack_mono. Qed.
+
+(* (2) The first deposit (LP supply zero) into a constant-product pool adds exactly MINIMUM_LIQUIDITY_AMOUNT of the LP denom
+   to that surplus (plus the depositor's own shares if he names the pool manager itself as receiver). *)
+Theorem C02_first_deposit_locks_the_minimum : forall w sender funds ls ss r pid l w' d0 d1 rest p,
+  sender <> PM -> aggregate_coins funds = Ok (d0 :: d1 :: rest) ->
+  run_tx w sender PM (WPm (PmProvide ls ss r pid None l)) funds = Ok w' ->
+  pool_find (w_pm w) pid = Ok p -> p_type p = ConstantProduct -> supply (w_bank w) (p_lp p) = 0 ->
+  exists shares, 0 <= shares /\
+    forall d, slackP w' d = slackP w d
+                + ind (String.eqb (p_lp p) d) MINIMUM_LIQUIDITY_AMOUNT
+                + ind (String.eqb PM (addr_or_default w r sender)) (ind (String.eqb (p_lp p) d) shares).
+Proof. exact first_deposit_tx. Qed.
+
+(* (3) Hence it can never be redeemed: after that first deposit, in every world of every continuation of the history, the pool
+   manager still holds at least MINIMUM_LIQUIDITY_AMOUNT of the LP denom beyond all reserves - the LP supply never falls below it. *)
+Theorem C02_minimum_liquidity_stays_locked_forever : forall w sender funds ls ss r pid l d0 d1 rest p ops,
+  pool_custody w ->
+  op_okP (Tx sender PM (WPm (PmProvide ls ss r pid None l)) funds) ->
+  aggregate_coins funds = Ok (d0 :: d1 :: rest) ->
+  snd (step w (Tx sender PM (WPm (PmProvide ls ss r pid None l)) funds)) = true ->
+  pool_find (w_pm w) pid = Ok p -> p_type p = ConstantProduct -> supply (w_bank w) (p_lp p) = 0 ->
+  Forall op_okP ops ->
+  MINIMUM_LIQUIDITY_AMOUNT <= slackP (run w (Tx sender PM (WPm (PmProvide ls ss r pid None l)) funds :: ops)) (p_lp p).
+Proof. exact first_deposit_locks_forever. Qed.
+
+(* the hypotheses are met by a real history (kernel-evaluated), which ends with exactly the minimum locked *)
+Theorem C02_locked_minimum_example : lock_statement.
+Proof. exact lock_example. Qed.
+
 Print Assumptions C02_cp_mint_at_most_proportional.
 Print Assumptions C02_cp_deposit_never_dilutes.
 Print Assumptions C02_cp_first_deposit.
@@ -84,3 +119,7 @@ Print Assumptions C02_withdraw_at_least_pro_rata_minus_one.
 Print Assumptions C02_redeemable.
 Print Assumptions C02_lp_minted_only_by_deposits_burned_only_by_withdrawals.
 Print Assumptions C02_withdrawal_transaction_moves_exactly_these_balances.
+Print Assumptions C02_surplus_never_decreases.
+Print Assumptions C02_first_deposit_locks_the_minimum.
+Print Assumptions C02_minimum_liquidity_stays_locked_forever.
+Print Assumptions C02_locked_minimum_example.
